@@ -164,6 +164,82 @@ def run_mesh_option_mismatch(ctx):
             ctx.oblige(a == b, "no error only when every shared option is equal")
 
 
+def option_consistency_classes(S):
+    """The real Mesh.__init__ (run up to the version look-up, which is replaced by a sentinel) on
+    real optionsfactory objects, for EVERY option shared by equilibrium and mesh: an equilibrium
+    created with a non-default value and a mesh whose settings (a) omit the option, (b) give the
+    default explicitly, (c) give yet another value are all refused; (d) the same value is accepted.
+    (a) matters most: the mesh would silently use -- and embed in the grid file -- its default while
+    the equilibrium was built with something else (C14: the file's inputs would not regenerate it)."""
+    from hypnotoad.cases import tokamak as T
+    from hypnotoad.core import mesh as M
+    from vc.shim import patched
+
+    class Reached(Exception):
+        pass
+
+    def stop():
+        raise Reached()
+
+    mo = M.BoutMesh.user_options_factory.create({})
+    eo = T.TokamakEquilibrium.user_options_factory.create({})
+    shared = [k for k in eo if k in mo]
+
+    def other(v, k, n=1):
+        if isinstance(v, bool):
+            return (not v) if n == 1 else None
+        if isinstance(v, int):
+            return v + n
+        if isinstance(v, float):
+            return v * (0.5 if n == 1 else 0.25)
+        if v is None:
+            return 0.1 * n
+        if isinstance(v, list):
+            return [["integrate"], ["line"]][n - 1]
+        if isinstance(v, str):
+            alts = {"psi_interpolation_method": ["dct", None], "poloidal_spacing_method": ["linear", "monotonic"]}.get(k)
+            return alts[n - 1] if alts else None
+        return None
+
+    def attempt(eq_settings, mesh_settings):
+        try:
+            eq_opts = T.TokamakEquilibrium.user_options_factory.create(eq_settings)
+        except Exception:
+            return "eq-invalid"
+        m = object.__new__(M.BoutMesh)
+        eq = types.SimpleNamespace(user_options=eq_opts)
+        try:
+            with patched((M, "get_versions", stop), (M, "print", lambda *a, **k: None)):
+                M.Mesh.__init__(m, eq, mesh_settings)
+        except Reached:
+            return "accepted"
+        except ValueError:
+            return "refused"
+        except Exception as e:
+            return "error %r" % e
+        return "accepted"
+
+    bad, used, n = [], [], 0
+    for k in shared:
+        v1, v2 = other(eo[k], k, 1), other(eo[k], k, 2)
+        if v1 is None:
+            continue
+        if attempt({k: v1}, {k: v1}) != "accepted":
+            continue  # value not valid for this option: class not exercised
+        used.append(k)
+        cases = [("omitted", {}, "refused"), ("default given explicitly", {k: eo[k]}, "refused"), ("same value", {k: v1}, "accepted")]
+        if v2 is not None and attempt({k: v2}, {k: v2}) == "accepted":
+            cases.append(("another value", {k: v2}, "refused"))
+        if eo[k] is None:
+            cases = [c for c in cases if c[0] != "default given explicitly"] + [("default (None) given explicitly", {k: None}, "refused")]
+        for what, ms, want in cases:
+            n += 1
+            got = attempt({k: v1}, ms)
+            if got != want:
+                bad.append(dict(option=k, equilibrium_value=repr(v1), mesh_settings=what, got=got, want=want))
+    S.static_vc("option-consistency", FN_M, "Mesh.__init__ refuses a mesh whose (evaluated) value of a shared option differs from the equilibrium's -- option omitted, default given, other value -- and accepts equal values: %d options x cases = %d (%s ...)" % (len(used), n, ", ".join(used[:6])), not bad and len(used) >= 15, detail=repr(bad[:3]) if bad else "options exercised: %d" % len(used), kind="native-all-classes", model=bad[0] if bad else None)
+
+
 def build(S):
     S.under_contract(FN_W, FN_G, FN_M, FN_S)
     S.assume("the validity of a generated file (finite values, positive hy, no folded cells) is decided on generated grids only (bounded); the deductive part covers the variable set, option checks and the definedness/guard obligations proved in C02, C03, C05, C06, C09, C10")
@@ -171,6 +247,7 @@ def build(S):
     static_obligations(S)
     curvature_output_guard(S)
     S.contract("Mesh.__init__[option consistency]", FN_M, run_mesh_option_mismatch, shape="one shared, one equilibrium-only, one mesh-only option")
+    option_consistency_classes(S)
     from vc.shim import numpy_shimmed
     from . import C08, C09
 
